@@ -293,3 +293,50 @@ Proof. rewrite !total_volume_is_sum, map_app, Qsum_app. reflexivity. Qed.
 
 Lemma total_volume_cons pi v vs : total_volume pi (v :: vs) == volume pi (normalise v) + total_volume pi vs.
 Proof. rewrite !total_volume_is_sum. reflexivity. Qed.
+
+(* ---- scaling (any magnitude of the coordinates) ---------------------------------------------------------- *)
+Definition scl (k : Q) (p : pt) : pt := (k * px p, k * py p).
+
+Lemma shoelace2_scale k l : shoelace2 (map (scl k) l) == k * k * shoelace2 l.
+Proof.
+  unfold shoelace2. rewrite cyc_sum_map.
+  rewrite (cyc_sum_ext _ (fun p q => (k * k) * cross p q)) by (intros; unfold cross, scl, px, py; cbn [fst snd]; ring).
+  apply cyc_sum_scale.
+Qed.
+
+Lemma gx_scale k l : cyc_sum gx (map (scl k) l) == k * k * k * cyc_sum gx l.
+Proof.
+  rewrite cyc_sum_map.
+  rewrite (cyc_sum_ext _ (fun p q => (k * k * k) * gx p q)) by (intros; unfold gx, cross, scl, px, py; cbn [fst snd]; ring).
+  apply cyc_sum_scale.
+Qed.
+
+Lemma gy_scale k l : cyc_sum gy (map (scl k) l) == k * k * k * cyc_sum gy l.
+Proof.
+  rewrite cyc_sum_map.
+  rewrite (cyc_sum_ext _ (fun p q => (k * k * k) * gy p q)) by (intros; unfold gy, cross, scl, px, py; cbn [fst snd]; ring).
+  apply cyc_sum_scale.
+Qed.
+
+Lemma area_scale k l : area (map (scl k) l) == k * k * area l.
+Proof.
+  unfold area. rewrite shoelace2_scale, Qabs_Qmult, (Qabs_pos (k * k)) by nra. field.
+Qed.
+
+Lemma centroid_scale k l : ~ k == 0 -> oeq (centroid (map (scl k) l)) (option_map (scl k) (centroid l)).
+Proof.
+  intros Hk. unfold centroid.
+  assert (Hkk : ~ k * k == 0) by (intro H0; apply Qmult_integral in H0; tauto).
+  destruct (Qeq_bool (shoelace2 (map (scl k) l) / 2) 0) eqn:E1; destruct (Qeq_bool (shoelace2 l / 2) 0) eqn:E2;
+    cbn [oeq option_map].
+  - exact I.
+  - apply Qeq_bool_iff, half_eq0_l in E1. apply Qeq_bool_neq in E2. apply E2, half_eq0_r.
+    rewrite shoelace2_scale in E1. apply Qmult_integral in E1. tauto.
+  - apply Qeq_bool_iff, half_eq0_l in E2. apply Qeq_bool_neq in E1. apply E1, half_eq0_r.
+    rewrite shoelace2_scale, E2. ring.
+  - apply Qeq_bool_neq in E2.
+    assert (~ shoelace2 l == 0) by (intro H0; apply E2, half_eq0_r, H0).
+    pose proof (gx_scale k l) as Gx. pose proof (gy_scale k l) as Gy. pose proof (shoelace2_scale k l) as Gs.
+    unfold px at 1 2, py at 1 2. cbn [fst snd]. rewrite Gx, Gy, Gs.
+    unfold scl, px, py. cbn [fst snd]. split; field; auto.
+Qed.
